@@ -242,6 +242,35 @@ class C16(spec.Spec):
         except Exception as e:
             out.violation("serialize-raises", "%s:tempfile-text-wrapper:%s" % (base, type(e).__name__), {"error": repr(e)}, hh)
         out.transitions += 1
+        # the same wrapper class, opened in binary mode (after the text-mode instance above)
+        try:
+            with tempfile.NamedTemporaryFile("w+b", dir=tmp, suffix=".btmp") as tf:
+                self.ser(doc, fmt, tf)
+                tf.flush()
+                tf.seek(0)
+                texts["tempfile-binary-wrapper"] = tf.read()
+        except Exception as e:
+            out.violation("serialize-raises", "%s:tempfile-binary-wrapper:%s" % (base, type(e).__name__), {"error": repr(e)}, hh)
+        # one relative file name written from two working directories
+        cwd = os.getcwd()
+        try:
+            for sub in ("wd1", "wd2"):
+                os.makedirs(os.path.join(tmp, sub))
+                os.chdir(os.path.join(tmp, sub))
+                self.ser(doc, fmt, "rel-out." + base)
+            os.chdir(cwd)
+            for sub in ("wd1", "wd2"):
+                pth = os.path.join(tmp, sub, "rel-out." + base)
+                if not os.path.exists(pth):
+                    out.violation("relative-path-written-elsewhere", fmt, {"missing": sub, "files": sorted(os.listdir(os.path.join(tmp, sub)))}, hh)
+                    break
+                with open(pth, "rb") as f:
+                    texts["relative-path-from-" + sub] = f.read()
+        except Exception as e:
+            out.violation("serialize-raises", "%s:relative-path:%s" % (base, type(e).__name__), {"error": repr(e)}, hh)
+        finally:
+            os.chdir(cwd)
+        out.transitions += 3
         if not isinstance(s_ret, str):
             out.violation("returned-value-not-str", fmt, {"type": type(s_ret).__name__}, hh)
             return
@@ -260,7 +289,9 @@ class C16(spec.Spec):
             for k in ("StringIO", "gb18030-text-file", "tempfile-text-wrapper"):
                 if k in texts and texts[k] != ref:
                     out.violation("destinations-disagree", "%s:%s" % (fmt, k), {"a": ref[:300], "b": texts[k][:300]}, hh)
-            for k in ("BytesIO", "path"):
+            for k in ("BytesIO", "path", "tempfile-binary-wrapper", "relative-path-from-wd1", "relative-path-from-wd2"):
+                if k not in texts:
+                    continue
                 try:
                     dec = texts[k].decode("utf-8")
                 except UnicodeDecodeError as e:
